@@ -161,4 +161,25 @@ ENTRIES = {
             "The black formatting pass is skipped for the bulk and exercised on every 97th model (AST-compared). SQLite / SQLAlchemy 2.0. "
             "Quick tier: 3-class models carry <=1 relation field per class.",
             "DESIGN.md section 3 C06"),
+    "C04": ("exploration",
+            "exhaustive enumeration of object graphs over a curated mapped model, to_dao/from_dao on every root, identity-aware isomorphism oracle",
+            "100k object graphs (2 items x 2 holders with every one/many/back/peers wiring incl. self loops, 2-cycles, repeated "
+            "elements, value-equal twins and subclass instances in base-typed fields; an alternatively mapped vector in single "
+            "fields, collections and cycles next to a Type-valued field; an alternatively mapped parent with a normally mapped "
+            "child; a TypeDecorator-mapped value class) are converted with to_dao and back with from_dao from every node as "
+            "root and from all nodes with one shared state; the result must be isomorphic including aliasing, collection order "
+            "and concrete classes, with exactly one DAO per distinct object.",
+            "The curated model reproduces each kind of mapping of the repository's data set (which contains lossy-by-design classes). "
+            "Quick tier takes every wiring with a back reference and a fifth of the purely forward ones.",
+            "DESIGN.md section 3 C04"),
+    "C05": ("exploration",
+            "exhaustive enumeration of object graphs and of generated models with canonical populations, persisted and reloaded in a second Session",
+            "6500 cases: curated-model graphs (back references, cycles, alternative mappings, custom types) and every generated "
+            "model of the C06 grammar with <=2 classes populated with two instances per class in up to 32 (thorough 64) wirings "
+            "are stored with to_dao + add_all + commit, the session is closed, and every object is loaded in a NEW Session through "
+            "its own DAO class and through every DAO base class, then converted with from_dao; the reloaded graph must be "
+            "isomorphic (polymorphic classes, type-exact scalars, JSON lists in order, relationship collections as sets, sharing) "
+            "and every table must hold exactly one row per distinct object of its class.",
+            "SQLite in-memory through krrood's own create_engine; repeated elements inside one collection are outside the statement.",
+            "DESIGN.md section 3 C05"),
 }
